@@ -190,6 +190,14 @@ Theorem C15_literal_head_after_Compact : forall off ws r0 ops s rs, off mod 64 =
 Proof. exact lit_head_after_Compact. Qed.
 Print Assumptions C15_literal_head_after_Compact.
 
+(** In ANY state, Compact, and a Set into the first stored word (which runs Compact), leave a first
+    word that is not all-ones. *)
+Theorem C15_head_after_Compact_or_Set_into_first_word :
+  (forall s, head_ok (Words (Compact s))) /\
+  (forall s idx s', Offset s <= idx < Offset s + 64 -> Set_ s idx = Some s' -> head_ok (Words s')).
+Proof. exact (conj Compact_head Set_head). Qed.
+Print Assumptions C15_head_after_Compact_or_Set_into_first_word.
+
 (** Get1 / Get = membership (below Offset, stored in the literal, or set since) below the end. *)
 Theorem C15_literal_Get_is_membership : forall off ws r0 ops s rs j (m : bool), off mod 64 = 0 -> words_ok ws ->
   run (mkTB off ws r0) ops = Some (s, rs) ->
